@@ -212,75 +212,178 @@ impl std::ops::Mul<i32> for TimeDelta {
 }
 
 // ------------------------------------------------------------------------------------------------
-// NaiveDate (concrete newtype)
+// NaiveDate: a real chrono date, or a symbolic day number (days from 0001-01-01 = 1, as chrono's
+// `num_days_from_ce`). Comparisons and day arithmetic on symbolic dates are solver terms; accessors
+// that return primitives (`year()`, `month()`, `day()`, `weekday()`, ...) fork over the feasible
+// values by bisection, so a path knows exactly as much about the date as the code asked for.
 // ------------------------------------------------------------------------------------------------
 
-#[derive(Clone, Copy, PartialEq, Eq, PartialOrd, Ord, Hash)]
-pub struct NaiveDate(rc::NaiveDate);
+#[derive(Clone, Copy)]
+pub struct NaiveDate(Repr);
+
+#[derive(Clone, Copy)]
+enum Repr {
+    Real(rc::NaiveDate),
+    Sym(SymInt),
+}
+
+fn ce_days(d: rc::NaiveDate) -> i64 {
+    Datelike::num_days_from_ce(&d) as i64
+}
+
+fn first_of_year(y: i32) -> i64 {
+    ce_days(rc::NaiveDate::from_ymd_opt(y, 1, 1).expect("year in chrono's range"))
+}
+
+/// Years a symbolic date may lie in (the harnesses constrain their dates much further).
+const SYM_YEAR_MIN: i32 = 1;
+const SYM_YEAR_MAX: i32 = 12_000;
 
 impl NaiveDate {
-    pub const MIN: NaiveDate = NaiveDate(rc::NaiveDate::MIN);
-    pub const MAX: NaiveDate = NaiveDate(rc::NaiveDate::MAX);
+    pub const MIN: NaiveDate = NaiveDate(Repr::Real(rc::NaiveDate::MIN));
+    pub const MAX: NaiveDate = NaiveDate(Repr::Real(rc::NaiveDate::MAX));
 
     pub const fn from_ymd_opt(y: i32, m: u32, d: u32) -> Option<NaiveDate> {
         match rc::NaiveDate::from_ymd_opt(y, m, d) {
-            Some(d) => Some(NaiveDate(d)),
+            Some(d) => Some(NaiveDate(Repr::Real(d))),
             None => None,
         }
     }
     pub const fn from_yo_opt(y: i32, o: u32) -> Option<NaiveDate> {
         match rc::NaiveDate::from_yo_opt(y, o) {
-            Some(d) => Some(NaiveDate(d)),
+            Some(d) => Some(NaiveDate(Repr::Real(d))),
             None => None,
         }
     }
     pub const fn from_isoywd_opt(y: i32, w: u32, wd: Weekday) -> Option<NaiveDate> {
         match rc::NaiveDate::from_isoywd_opt(y, w, wd) {
-            Some(d) => Some(NaiveDate(d)),
+            Some(d) => Some(NaiveDate(Repr::Real(d))),
             None => None,
         }
     }
     pub fn from_num_days_from_ce_opt(n: i32) -> Option<NaiveDate> {
-        rc::NaiveDate::from_num_days_from_ce_opt(n).map(NaiveDate)
+        rc::NaiveDate::from_num_days_from_ce_opt(n).map(|d| NaiveDate(Repr::Real(d)))
     }
+
+    /// Shim-only: a symbolic date given by its day number; the caller constrains the range.
+    pub fn from_sym_days(days: SymInt) -> NaiveDate {
+        match days.as_const() {
+            Some(n) => NaiveDate(Repr::Real(rc::NaiveDate::from_num_days_from_ce_opt(n as i32).expect("day number in range"))),
+            None => NaiveDate(Repr::Sym(days)),
+        }
+    }
+
+    /// Shim-only: the day number as a term.
+    pub fn sym_days(self) -> SymInt {
+        match self.0 {
+            Repr::Real(d) => SymInt::Const(ce_days(d)),
+            Repr::Sym(s) => s,
+        }
+    }
+
+    pub fn is_symbolic(self) -> bool {
+        matches!(self.0, Repr::Sym(_))
+    }
+
+    /// The year of a symbolic date, found by bisection over year starts (forks over feasible years).
+    fn sym_year(days: SymInt) -> i32 {
+        let (mut lo, mut hi) = (SYM_YEAR_MIN, SYM_YEAR_MAX); // invariant: first_of_year(lo) <= days < first_of_year(hi + 1)
+        while lo < hi {
+            let mid = lo + (hi - lo + 1) / 2;
+            if vrt::decide(days.lt(SymInt::Const(first_of_year(mid)))) {
+                hi = mid - 1;
+            } else {
+                lo = mid;
+            }
+        }
+        lo
+    }
+
+    /// Fully concretise a symbolic date on this path (forks over every feasible day).
+    fn real(self) -> rc::NaiveDate {
+        match self.0 {
+            Repr::Real(d) => d,
+            Repr::Sym(days) => {
+                let y = Self::sym_year(days);
+                let base = first_of_year(y);
+                let len: i64 = if rc::NaiveDate::from_ymd_opt(y, 2, 29).is_some() { 366 } else { 365 };
+                let (mut lo, mut hi) = (0i64, len - 1);
+                while lo < hi {
+                    let mid = lo + (hi - lo + 1) / 2;
+                    if vrt::decide(days.lt(SymInt::Const(base + mid))) {
+                        hi = mid - 1;
+                    } else {
+                        lo = mid;
+                    }
+                }
+                rc::NaiveDate::from_yo_opt(y, lo as u32 + 1).expect("valid ordinal")
+            }
+        }
+    }
+
+    /// Shim-only: the wrapped real date (concretises a symbolic one).
+    pub fn to_real(self) -> rc::NaiveDate {
+        self.real()
+    }
+    pub fn from_real(d: rc::NaiveDate) -> Self {
+        NaiveDate(Repr::Real(d))
+    }
+
+    fn shifted_days(self, n: i64) -> Option<NaiveDate> {
+        match self.0 {
+            Repr::Real(d) => {
+                let delta = rc::TimeDelta::try_days(n)?;
+                d.checked_add_signed(delta).map(|d| NaiveDate(Repr::Real(d)))
+            }
+            Repr::Sym(s) => {
+                let r = s.add_const(n);
+                let lo = SymInt::Const(ce_days(rc::NaiveDate::MIN));
+                let hi = SymInt::Const(ce_days(rc::NaiveDate::MAX));
+                if vrt::decide(lo.le(r).and(r.le(hi))) {
+                    Some(NaiveDate(Repr::Sym(r)))
+                } else {
+                    None
+                }
+            }
+        }
+    }
+
     pub fn succ_opt(&self) -> Option<NaiveDate> {
-        self.0.succ_opt().map(NaiveDate)
+        self.shifted_days(1)
     }
     pub fn pred_opt(&self) -> Option<NaiveDate> {
-        self.0.pred_opt().map(NaiveDate)
+        self.shifted_days(-1)
     }
     pub fn checked_add_months(self, m: Months) -> Option<NaiveDate> {
-        self.0.checked_add_months(m).map(NaiveDate)
-    }
-    pub fn checked_add_days(self, days: Days) -> Option<NaiveDate> {
-        self.0.checked_add_days(days).map(NaiveDate)
-    }
-    pub fn checked_sub_days(self, days: Days) -> Option<NaiveDate> {
-        self.0.checked_sub_days(days).map(NaiveDate)
-    }
-    pub fn and_hms_milli_opt(&self, h: u32, m: u32, s: u32, _ms: u32) -> Option<NaiveDateTime> {
-        self.and_hms_opt(h, m, s)
-    }
-    pub fn week(&self, start: Weekday) -> rc::NaiveWeek {
-        self.0.week(start)
-    }
-    pub fn leap_year(&self) -> bool {
-        self.0.leap_year()
-    }
-    pub fn years_since(&self, base: NaiveDate) -> Option<u32> {
-        self.0.years_since(base.0)
+        self.real().checked_add_months(m).map(NaiveDate::from_real)
     }
     pub fn checked_sub_months(self, m: Months) -> Option<NaiveDate> {
-        self.0.checked_sub_months(m).map(NaiveDate)
+        self.real().checked_sub_months(m).map(NaiveDate::from_real)
+    }
+    pub fn checked_add_days(self, days: Days) -> Option<NaiveDate> {
+        self.real().checked_add_days(days).map(NaiveDate::from_real)
+    }
+    pub fn checked_sub_days(self, days: Days) -> Option<NaiveDate> {
+        self.real().checked_sub_days(days).map(NaiveDate::from_real)
+    }
+    fn whole_days(d: TimeDelta, what: &str) -> i64 {
+        // chrono adds the whole days of the duration to a date (truncating toward zero)
+        let secs = d.concrete(what);
+        secs / DAY
     }
     pub fn checked_add_signed(self, d: TimeDelta) -> Option<NaiveDate> {
-        self.0.checked_add_signed(d.to_rc("NaiveDate + delta")).map(NaiveDate)
+        d.to_rc("NaiveDate + delta");
+        self.shifted_days(Self::whole_days(d, "NaiveDate + delta"))
     }
     pub fn checked_sub_signed(self, d: TimeDelta) -> Option<NaiveDate> {
-        self.0.checked_sub_signed(d.to_rc("NaiveDate - delta")).map(NaiveDate)
+        d.to_rc("NaiveDate - delta");
+        self.shifted_days(-Self::whole_days(d, "NaiveDate - delta"))
     }
     pub fn signed_duration_since(self, o: NaiveDate) -> TimeDelta {
-        TimeDelta::from_rc(self.0.signed_duration_since(o.0))
+        match (self.0, o.0) {
+            (Repr::Real(a), Repr::Real(b)) => TimeDelta::from_rc(a.signed_duration_since(b)),
+            _ => TimeDelta { secs: self.sym_days().sub(o.sym_days()).mul_const(DAY) },
+        }
     }
     pub const fn and_time(&self, time: NaiveTime) -> NaiveDateTime {
         NaiveDateTime { date: *self, time }
@@ -288,86 +391,213 @@ impl NaiveDate {
     pub fn and_hms_opt(&self, h: u32, m: u32, s: u32) -> Option<NaiveDateTime> {
         NaiveTime::from_hms_opt(h, m, s).map(|t| self.and_time(t))
     }
+    pub fn and_hms_milli_opt(&self, h: u32, m: u32, s: u32, _ms: u32) -> Option<NaiveDateTime> {
+        self.and_hms_opt(h, m, s)
+    }
     pub fn parse_from_str(s: &str, fmt: &str) -> ParseResult<NaiveDate> {
-        rc::NaiveDate::parse_from_str(s, fmt).map(NaiveDate)
+        rc::NaiveDate::parse_from_str(s, fmt).map(NaiveDate::from_real)
     }
     pub fn format<'a>(&self, fmt: &'a str) -> rc::format::DelayedFormat<rc::format::StrftimeItems<'a>> {
-        self.0.format(fmt)
+        self.real().format(fmt)
     }
     pub fn iter_days(&self) -> impl Iterator<Item = NaiveDate> {
-        self.0.iter_days().map(NaiveDate)
+        self.real().iter_days().map(NaiveDate::from_real)
     }
     pub fn num_days_from_ce(&self) -> i32 {
-        Datelike::num_days_from_ce(&self.0)
+        ce_days(self.real()) as i32
     }
-    /// Shim-only: the wrapped real date.
-    pub fn real(self) -> rc::NaiveDate {
-        self.0
+    pub fn week(&self, start: Weekday) -> rc::NaiveWeek {
+        self.real().week(start)
     }
-    pub fn from_real(d: rc::NaiveDate) -> Self {
-        NaiveDate(d)
+    pub fn leap_year(&self) -> bool {
+        self.real().leap_year()
+    }
+    pub fn years_since(&self, base: NaiveDate) -> Option<u32> {
+        self.real().years_since(base.real())
     }
 }
 
 impl Datelike for NaiveDate {
     fn year(&self) -> i32 {
-        self.0.year()
+        match self.0 {
+            Repr::Real(d) => d.year(),
+            Repr::Sym(s) => Self::sym_year(s),
+        }
     }
     fn month(&self) -> u32 {
-        self.0.month()
+        match self.0 {
+            Repr::Real(d) => d.month(),
+            // year by bisection, then the month by bisection over the month starts: the day of the
+            // month stays symbolic
+            Repr::Sym(s) => {
+                let y = Self::sym_year(s);
+                let (mut lo, mut hi) = (1u32, 12u32);
+                while lo < hi {
+                    let mid = lo + (hi - lo + 1) / 2;
+                    let start = ce_days(rc::NaiveDate::from_ymd_opt(y, mid, 1).unwrap());
+                    if vrt::decide(s.lt(SymInt::Const(start))) {
+                        hi = mid - 1;
+                    } else {
+                        lo = mid;
+                    }
+                }
+                lo
+            }
+        }
     }
     fn month0(&self) -> u32 {
-        self.0.month0()
+        self.month() - 1
     }
     fn day(&self) -> u32 {
-        self.0.day()
+        self.real().day()
     }
     fn day0(&self) -> u32 {
-        self.0.day0()
+        self.real().day0()
     }
     fn ordinal(&self) -> u32 {
-        self.0.ordinal()
+        self.real().ordinal()
     }
     fn ordinal0(&self) -> u32 {
-        self.0.ordinal0()
+        self.real().ordinal0()
     }
     fn weekday(&self) -> Weekday {
-        self.0.weekday()
+        match self.0 {
+            Repr::Real(d) => d.weekday(),
+            Repr::Sym(s) => {
+                // 0001-01-01 (day number 1) is a Monday
+                let r = s.add_const(-1).mod_const(7);
+                let alts: Vec<SymBool> = (0..7).map(|k| r.eq(SymInt::Const(k))).collect();
+                match vrt::decide_among(&alts) {
+                    0 => Weekday::Mon,
+                    1 => Weekday::Tue,
+                    2 => Weekday::Wed,
+                    3 => Weekday::Thu,
+                    4 => Weekday::Fri,
+                    5 => Weekday::Sat,
+                    _ => Weekday::Sun,
+                }
+            }
+        }
     }
     fn iso_week(&self) -> IsoWeek {
-        self.0.iso_week()
+        match self.0 {
+            Repr::Real(d) => d.iso_week(),
+            // All days of a Monday..Sunday week share their ISO week: find the week (not the day) by
+            // bisection over the Mondays of the date's year (+- one week), the weekday stays symbolic.
+            Repr::Sym(s) => {
+                let y = Self::sym_year(s);
+                // Monday on or before Jan 1 of year y; day number 1 (0001-01-01) is a Monday
+                let jan1 = first_of_year(y);
+                let first_monday = jan1 - (jan1 - 1).rem_euclid(7);
+                let (mut lo, mut hi) = (0i64, 53i64); // week index k: first_monday + 7k <= days < first_monday + 7(k+1)
+                while lo < hi {
+                    let mid = lo + (hi - lo + 1) / 2;
+                    if vrt::decide(s.lt(SymInt::Const(first_monday + 7 * mid))) {
+                        hi = mid - 1;
+                    } else {
+                        lo = mid;
+                    }
+                }
+                // Thursday of that week decides the ISO year/week; it is a concrete date
+                let thursday = rc::NaiveDate::from_num_days_from_ce_opt((first_monday + 7 * lo + 3) as i32).expect("date in range");
+                thursday.iso_week()
+            }
+        }
     }
     fn with_year(&self, year: i32) -> Option<Self> {
-        self.0.with_year(year).map(NaiveDate)
+        self.real().with_year(year).map(NaiveDate::from_real)
     }
     fn with_month(&self, month: u32) -> Option<Self> {
-        self.0.with_month(month).map(NaiveDate)
+        self.real().with_month(month).map(NaiveDate::from_real)
     }
     fn with_month0(&self, month0: u32) -> Option<Self> {
-        self.0.with_month0(month0).map(NaiveDate)
+        self.real().with_month0(month0).map(NaiveDate::from_real)
     }
     fn with_day(&self, day: u32) -> Option<Self> {
-        self.0.with_day(day).map(NaiveDate)
+        self.real().with_day(day).map(NaiveDate::from_real)
     }
     fn with_day0(&self, day0: u32) -> Option<Self> {
-        self.0.with_day0(day0).map(NaiveDate)
+        self.real().with_day0(day0).map(NaiveDate::from_real)
     }
     fn with_ordinal(&self, ordinal: u32) -> Option<Self> {
-        self.0.with_ordinal(ordinal).map(NaiveDate)
+        self.real().with_ordinal(ordinal).map(NaiveDate::from_real)
     }
     fn with_ordinal0(&self, ordinal0: u32) -> Option<Self> {
-        self.0.with_ordinal0(ordinal0).map(NaiveDate)
+        self.real().with_ordinal0(ordinal0).map(NaiveDate::from_real)
     }
 }
 
+impl PartialEq for NaiveDate {
+    fn eq(&self, o: &Self) -> bool {
+        match (self.0, o.0) {
+            (Repr::Real(a), Repr::Real(b)) => a == b,
+            _ => vrt::decide(self.sym_days().eq(o.sym_days())),
+        }
+    }
+}
+impl Eq for NaiveDate {}
+impl PartialOrd for NaiveDate {
+    fn partial_cmp(&self, o: &Self) -> Option<Ordering> {
+        Some(self.cmp(o))
+    }
+    fn lt(&self, o: &Self) -> bool {
+        match (self.0, o.0) {
+            (Repr::Real(a), Repr::Real(b)) => a < b,
+            _ => vrt::decide(self.sym_days().lt(o.sym_days())),
+        }
+    }
+    fn le(&self, o: &Self) -> bool {
+        match (self.0, o.0) {
+            (Repr::Real(a), Repr::Real(b)) => a <= b,
+            _ => vrt::decide(self.sym_days().le(o.sym_days())),
+        }
+    }
+    fn gt(&self, o: &Self) -> bool {
+        o.lt(self)
+    }
+    fn ge(&self, o: &Self) -> bool {
+        o.le(self)
+    }
+}
+impl Ord for NaiveDate {
+    fn cmp(&self, o: &Self) -> Ordering {
+        match (self.0, o.0) {
+            (Repr::Real(a), Repr::Real(b)) => a.cmp(&b),
+            _ => vrt::decide_cmp(self.sym_days(), o.sym_days()),
+        }
+    }
+    fn max(self, o: Self) -> Self {
+        match (self.0, o.0) {
+            (Repr::Real(a), Repr::Real(b)) => NaiveDate(Repr::Real(a.max(b))),
+            _ => NaiveDate::from_sym_days(self.sym_days().max(o.sym_days())),
+        }
+    }
+    fn min(self, o: Self) -> Self {
+        match (self.0, o.0) {
+            (Repr::Real(a), Repr::Real(b)) => NaiveDate(Repr::Real(a.min(b))),
+            _ => NaiveDate::from_sym_days(self.sym_days().min(o.sym_days())),
+        }
+    }
+}
+impl Hash for NaiveDate {
+    fn hash<H: Hasher>(&self, state: &mut H) {
+        match self.0 {
+            Repr::Real(d) => d.hash(state),
+            Repr::Sym(_) => panic!("vrt: unsupported hash of a symbolic NaiveDate"),
+        }
+    }
+}
 impl fmt::Debug for NaiveDate {
     fn fmt(&self, f: &mut fmt::Formatter<'_>) -> fmt::Result {
-        fmt::Debug::fmt(&self.0, f)
+        match self.0 {
+            Repr::Real(d) => fmt::Debug::fmt(&d, f),
+            Repr::Sym(s) => write!(f, "<day {}>", s.text()),
+        }
     }
 }
 impl fmt::Display for NaiveDate {
     fn fmt(&self, f: &mut fmt::Formatter<'_>) -> fmt::Result {
-        fmt::Display::fmt(&self.0, f)
+        fmt::Debug::fmt(self, f)
     }
 }
 impl Add<TimeDelta> for NaiveDate {
@@ -401,7 +631,7 @@ impl Sub<NaiveDate> for NaiveDate {
 impl std::str::FromStr for NaiveDate {
     type Err = ParseError;
     fn from_str(s: &str) -> ParseResult<NaiveDate> {
-        s.parse::<rc::NaiveDate>().map(NaiveDate)
+        s.parse::<rc::NaiveDate>().map(NaiveDate::from_real)
     }
 }
 
@@ -566,12 +796,12 @@ impl NaiveDateTime {
     pub fn parse_from_str(s: &str, fmt: &str) -> ParseResult<NaiveDateTime> {
         use rc::Timelike as _;
         rc::NaiveDateTime::parse_from_str(s, fmt).map(|dt| NaiveDateTime {
-            date: NaiveDate(dt.date()),
+            date: NaiveDate::from_real(dt.date()),
             time: NaiveTime { secs: SymInt::Const(dt.time().num_seconds_from_midnight() as i64) },
         })
     }
     pub fn format<'a>(&self, fmt: &'a str) -> String {
-        rc::NaiveDateTime::new(self.date.0, self.time.to_rc("format")).format(fmt).to_string()
+        rc::NaiveDateTime::new(self.date.to_real(), self.time.to_rc("format")).format(fmt).to_string()
     }
 
     /// Add a (possibly symbolic) number of seconds; whole days are carried into the concrete date
@@ -598,8 +828,8 @@ impl NaiveDateTime {
                 }
             }
         }
-        let date = self.date.0.checked_add_signed(rc::TimeDelta::try_days(days)?)?;
-        Some(NaiveDateTime { date: NaiveDate(date), time: NaiveTime { secs: total.sub(SymInt::Const(days * DAY)) } })
+        let date = self.date.shifted_days(days)?;
+        Some(NaiveDateTime { date, time: NaiveTime { secs: total.sub(SymInt::Const(days * DAY)) } })
     }
 
     pub fn checked_add_signed(self, d: TimeDelta) -> Option<NaiveDateTime> {
@@ -609,8 +839,8 @@ impl NaiveDateTime {
         self.shifted(SymInt::Const(0).sub(d.secs))
     }
     pub fn signed_duration_since(self, o: NaiveDateTime) -> TimeDelta {
-        let days = self.date.0.signed_duration_since(o.date.0).num_days();
-        TimeDelta { secs: SymInt::Const(days * DAY).add(self.time.secs.sub(o.time.secs)) }
+        let days = self.date.signed_duration_since(o.date).secs;
+        TimeDelta { secs: days.add(self.time.secs.sub(o.time.secs)) }
     }
     pub fn and_utc(&self) -> DateTime<Utc> {
         DateTime { utc: *self, offset: Utc }
